@@ -340,7 +340,7 @@ def doc_rule(c):
     """-> (kind, value tag, hooks) with kind in val / exc / anyexc"""
     rt, spec = c["rt"], c["spec"]
     raised = c["body"] == "raise"
-    val = pconv(rt, ZERO[rt] if c["body"] == "fall" else c["body"])     # the return statement converts to the return type
+    val = None if raised else pconv(rt, ZERO[rt] if c["body"] == "fall" else c["body"])     # `return x` converts x to the return type
     if rt == "object":                       # always NULL + exception, clause is ignored
         return ("exc", "KeyError", 0) if raised else ("val", val, 0)
     if spec == "noexc":                      # "will print a warning message but not allow the exception to propagate"
